@@ -178,7 +178,11 @@ def line_axis(draw, count, small=True):
     """(start, step) for a line axis; ascending/descending, negative, non-unit steps."""
     step = draw(st.sampled_from([1, 1, 2, 3, 5, 7, -1, -2, -4]))
     if small:
-        start = draw(st.integers(-50, 3000))
+        # mostly survey-like numbers; one in five large (labels of 1e5..1e7 and the int32 end), where a
+        # tolerance-based or float32 label lookup would start to confuse neighbouring lines
+        lim = 2 ** 31 - 1 - abs(step) * count
+        start = draw(st.one_of(st.integers(-50, 3000), st.integers(-50, 3000), st.integers(-50, 3000), st.integers(-50, 3000),
+                               st.one_of(st.integers(10 ** 5, 10 ** 7), st.integers(-10 ** 7, -10 ** 5), st.integers(lim - 1000, lim))))
     else:
         lim = 2 ** 31 - 1 - abs(step) * count
         start = draw(st.one_of(st.integers(-50, 3000), st.integers(-lim, lim)))
